@@ -142,6 +142,8 @@ func sprintfArgs(c *ssa.Call) string {
 }
 
 func checkC11(p *load.Program, r *kit.Report) {
+	r.Rule("CONSOLIDATE-IDENTITY", "the branch Consolidate builds has the parent, firstHeader, parentHeight and offset of the branch it replaces (other)", 1)
+	checkConsolidateIdentity(p, r, "CONSOLIDATE-IDENTITY")
 	importRules(p, r, "C10", "Save consolidates first and writes the index from the rebuilt branch list: every branch except the old root and the old tip must be reconnected, or it is missing from what Load restores", 1,
 		func(o *kit.Obligation) bool { return strings.HasPrefix(o.Construct, "consolidate/") }, "COVER-ALL")
 	r.Rule("TIE-KEEPS-FIRST", "Branches.Longest replaces its selection only for strictly more accumulated work: equal-work branches keep their order across Save and Load", 1)
@@ -604,6 +606,7 @@ func checkBranchSave(p *load.Program, r *kit.Report) {
 }
 
 func checkC12(p *load.Program, r *kit.Report) {
+	importRules(p, r, "C11", "Save and Clean write the consolidated main chain under the name its first header gives it: it must be the replaced oldest branch's, or the chain is merged into a stored side-branch file and the next Load reports a chain that was never saved", 1, nil, "CONSOLIDATE-IDENTITY")
 	importRules(p, r, "C11", "a crash image holds the branch files of one Save and the header files of another: load must read the header files from the lowest height the loaded best branch still holds in memory, not from its tip", 1,
 		func(o *kit.Obligation) bool { return strings.HasPrefix(o.Construct, "loadHistoricalHashHeights/") }, "COVER-ALL")
 	importRules(p, r, "C01", "Load reports the branch with the most stored work: the work stored with a header must be its own value (NewBranch adds into a copy, never into the parent header's big.Int), or a one-header stub outweighs the saved tip after a restart", 4, nil, "WORK-FLOW")
